@@ -219,6 +219,16 @@ def corpus():
                         dict(op="S", key="b", compress=False, overwrite=True), dict(op="L", key="b"),
                         dict(op="L", key="arr_0"), dict(op="S", key=None, compress=False, overwrite=False),
                         dict(op="L", key=None)]))
+    # a second writer between two saves of ONE unchanged object: the path is overwritten by another program (valid foreign
+    # statistics for raw targets, a foreign archive for .npz, garbage for .npy), then the object is saved again with the very
+    # same arguments - the file must again hold ITS statistics
+    foreign = np.array([[5.0, -3.0, 4.0], [30.0, 9.0, 0.0]]).tobytes()
+    for kind, suf in (("raw", ".bin"), ("raw", ""), ("npy", ".npy"), ("npz", ".npz")):
+        other = dict(op="P", entries=[["arr_0", 3], ["b", 4]]) if kind == "npz" else dict(op="W", what="second_writer", hex=foreign.hex())
+        for comp in ((False, True) if kind == "npz" else (False,)):
+            cs.append(dict(kind=kind, suffix=suf, mode="neg", dtype="f64", F=2, nv=True, probe=[[-10.0, 2.5]],
+                           ops=[dict(op="A", call=neg), dict(op="S", key=None, compress=comp, overwrite=True), dict(op="L", key=None),
+                                other, dict(op="S", key=None, compress=comp, overwrite=True), dict(op="L", key=None)]))
     return cs
 
 
